@@ -10,12 +10,14 @@ registry.load_rules()
 src = mutants._sources()
 base = Ctx()
 jobs = []
+notapp = 0
 only = sys.argv[1:]
 for m in mutants.CATALOGUE:
     if only and m['name'] not in only:
         continue
     if not mutants.applicable(m, src):
         print('NOT-APPLICABLE', m['name'])
+        notapp += 1
         continue
     if m['kind'] == 'fault':
         rids = [r for r in m['rules']]
@@ -52,5 +54,5 @@ for (m, rids), r in zip(jobs, res):
             print('NOISY   ', m['name'], r['new'][:3]); bad += 1
         else:
             print('silent  ', m['name'])
-print('%d mutants, %d problems, %.1fs' % (len(jobs), bad, time.time() - t))
-sys.exit(1 if bad else 0)
+print('%d mutants, %d problems, %d not applicable on this tree, %.1fs' % (len(jobs), bad, notapp, time.time() - t))
+sys.exit(1 if (bad or notapp) else 0)
